@@ -1,6 +1,7 @@
 import MetadorModel.Py.DrvLib
 import MetadorModel.Model.Chain
 import MetadorModel.Model.UBlock
+import MetadorModel.Model.Crash
 /-!
 Driver for the record-opening model (C04) and the user-block codec / torn writes (C11).
 
@@ -9,6 +10,7 @@ cfg <mfAware T|F> <allowBaseless T|F>          -> ok
 def <name> <hex of first bytes|-> <whole T|F>   -> def ok | def err <kind> | def outside      (names a user block; kept until `#case`)
 file @<name> <payload digest|-> <h5ok T|F> <manifest digest|none>   -> ok
 open                                           -> ok <input indices in patch order> | err <kind>   (and forgets the files)
+wopen <next patch name taken T|F>              -> w reopen | w create | w refuse | err <kind>      (writable open, C11; forgets the files)
 load <hex|-> <whole T|F>                       -> ub <rid> <idx> <pid> <prev|-> <hash|-> <ext> | err <kind>
 tornall <old hex> <data hex> <kmax>            -> runs  o*a e*b n*c …  (k = 0 … kmax)
 ```
@@ -123,6 +125,18 @@ def step (s : St) : List String → St × String
       match openFiles (fun p : P => p.2) (fun m : Digest => m) s.mfAware s.allowBaseless s.files.reverse with
       | .ok l => (s', " ".intercalate ("ok" :: l.map (fun f => toString f.payload.1)))
       | .error e => (s', "err " ++ chErr e)
+  | ["wopen", t] =>
+    match parseB t with
+    | some taken =>
+      let s' := { s with files := [], outside := false }
+      if s.outside then (s', "err outside")
+      else
+        match Crash.openW (fun p : P => p.2) (fun m : Digest => m) s.mfAware s.files.reverse taken with
+        | .ok .reopen => (s', "w reopen")
+        | .ok .create => (s', "w create")
+        | .ok .refuse => (s', "w refuse")
+        | .error e => (s', "err " ++ chErr e)
+    | none => (s, "bad-op")
   | ["load", hx, whole] =>
     match unhexBytes hx, parseB whole with
     | some bytes, some whole =>
